@@ -210,6 +210,141 @@ pub fn eval_at<F: Fn(&str) -> bool>(ast: &RAst, asg: &F) -> Result<bool, String>
     })
 }
 
+
+// ---------------------------------------------------------------------------------------------
+// The same semantics on reference diagrams (`refbdd::Ref`) instead of truth tables: no limit on
+// the number of names, cost proportional to diagram sizes. Level of a name = its position in
+// `names`. Written to mirror `eval` above clause by clause.
+
+use crate::refbdd::{self, Ref};
+
+struct DEnv<'a> {
+    names: &'a [String],
+    binds: Vec<(String, Option<refbdd::Id>)>,
+    max_iters: usize,
+    fix_cap: usize,
+}
+
+impl<'a> DEnv<'a> {
+    fn pos(&self, n: &str) -> Result<usize, SemError> {
+        self.names.iter().position(|x| x == n).ok_or_else(|| SemError::UnknownName(n.to_string()))
+    }
+    fn lookup(&self, n: &str) -> Option<refbdd::Id> {
+        for (name, v) in self.binds.iter().rev() {
+            if name == n {
+                return *v;
+            }
+        }
+        None
+    }
+}
+
+pub struct DOutcome {
+    pub id: refbdd::Id,
+    pub max_fix_iterations: usize,
+}
+
+/// Reference diagram of `ast` in manager `m`; fixed points give up (NonConvergent) after `fix_cap` applications.
+pub fn diagram(ast: &RAst, names: &[String], m: &mut Ref, fix_cap: usize) -> Result<DOutcome, SemError> {
+    let mut env = DEnv { names, binds: Vec::new(), max_iters: 0, fix_cap };
+    let id = deval(ast, &mut env, m)?;
+    Ok(DOutcome { id, max_fix_iterations: env.max_iters })
+}
+
+fn deval(ast: &RAst, env: &mut DEnv, m: &mut Ref) -> Result<refbdd::Id, SemError> {
+    Ok(match ast {
+        RAst::False => refbdd::F,
+        RAst::True => refbdd::T,
+        RAst::Ref(_) => refbdd::F,
+        RAst::Var(n) => match env.lookup(n) {
+            Some(t) => t,
+            None => {
+                let p = env.pos(n)?;
+                m.var(p)
+            }
+        },
+        RAst::Not(a) => {
+            let x = deval(a, env, m)?;
+            m.not(x)
+        }
+        RAst::Bin(op, a, b) => {
+            let x = deval(a, env, m)?;
+            let y = deval(b, env, m)?;
+            match op {
+                BinOp::And => m.and(x, y),
+                BinOp::Or => m.or(x, y),
+                BinOp::Xor => m.xor(x, y),
+                BinOp::Nor => m.apply(refbdd::OP_NOR, x, y),
+                BinOp::Nand => m.apply(refbdd::OP_NAND, x, y),
+                BinOp::Implies => m.imp(x, y),
+                BinOp::ImpliesInv => m.imp(y, x),
+                BinOp::Iff => m.iff(x, y),
+            }
+        }
+        RAst::Ite(c, t, e) => {
+            let c = deval(c, env, m)?;
+            let t = deval(t, env, m)?;
+            let e = deval(e, env, m)?;
+            m.ite(c, t, e)
+        }
+        RAst::Quant(ex, ns, body) => {
+            let mark = env.binds.len();
+            for n in ns {
+                env.binds.push((n.clone(), None));
+            }
+            let r = deval(body, env, m);
+            env.binds.truncate(mark);
+            let t = r?;
+            let mut vs = std::collections::BTreeSet::new();
+            for n in ns {
+                vs.insert(env.pos(n)?);
+            }
+            m.quant(*ex, &vs, t)
+        }
+        RAst::CountConst(op, l, n) => {
+            let mut ids = Vec::new();
+            for f in l {
+                ids.push(deval(f, env, m)?);
+            }
+            let n = *n as i128;
+            m.count_cmp(&ids, |c| op.holds(c, n))
+        }
+        RAst::CountList(op, l, r) => {
+            let mut a = Vec::new();
+            for f in l {
+                a.push(deval(f, env, m)?);
+            }
+            let mut b = Vec::new();
+            for f in r {
+                b.push(deval(f, env, m)?);
+            }
+            m.count2_cmp(&a, &b, |x, y| op.holds(x, y))
+        }
+        RAst::Fix(name, greatest, body) => {
+            let mut cur = if *greatest { refbdd::T } else { refbdd::F };
+            let mut iters = 0usize;
+            loop {
+                iters += 1;
+                if iters > env.fix_cap {
+                    return Err(SemError::NonConvergent);
+                }
+                env.binds.push((name.clone(), Some(cur)));
+                let next = deval(body, env, m);
+                env.binds.pop();
+                let next = next?;
+                if next == cur {
+                    break;
+                }
+                cur = next;
+            }
+            if iters > env.max_iters {
+                env.max_iters = iters;
+            }
+            cur
+        }
+    })
+}
+
 #[cfg(test)]
 mod tests {
     use super::*;
@@ -243,5 +378,23 @@ mod tests {
         // the repository's fixed-point test: X collects a, then b, then c
         let (t, names) = tab("(mu X # (a | X) | (if (all a # a in X) then (X | b) else X) | (if (all b # b in X) then (X | c) else X)) <=> (a|b|c)");
         assert!(t.is_true(), "{:?} {:?}", t, names);
+    }
+
+    #[test]
+    fn diagrams_agree_with_tables() {
+        for text in [
+            "a & b | c", "exists a # a ^ b", "forall a, b # (a | c) => b", "[a, b, c, a] >= 2", "[a, b] < [c, -a, b]",
+            "lfp X # a | (b & X)", "gfp X # (a | X) & (exists a # X & b)", "if a then b else -c", "[a,b,c] = 1 nand c",
+            "(mu X # (a | X) | (if (all a # a in X) then (X | b) else X) | (if (all b # b in X) then (X | c) else X))",
+        ] {
+            let p = rparse::parse_text(text.as_bytes()).unwrap();
+            let names = crate::rlex::identifiers(&p.tokens);
+            let t = table(&p.ast, &names).unwrap();
+            let mut m = Ref::new();
+            let d = diagram(&p.ast, &names, &mut m, 100).unwrap();
+            let syms: Vec<usize> = (0..names.len()).collect();
+            let pl = m.to_plain(d.id);
+            assert_eq!(crate::plain::table_usize(&pl, &syms).unwrap(), t, "{}", text);
+        }
     }
 }
